@@ -9,6 +9,7 @@ use std::borrow::Cow;
 use std::cell::RefCell;
 use std::time::Duration;
 
+#[derive(Clone)]
 pub struct CustomToken {
     pub secret: String,
     pub hint: Option<String>,
@@ -132,8 +133,11 @@ pub fn run(ws: &[&str]) -> String {
             for (chunk, single) in plan.iter().zip(plan_single.iter()) {
                 if *single {
                     req = req.add_scope(chunk[0].clone());
-                } else {
+                } else if chunk.len() % 2 == 0 {
                     req = req.add_scopes(chunk.clone());
+                } else {
+                    // a lazy iterator whose size hint promises nothing
+                    req = req.add_scopes(chunk.clone().into_iter().filter(|_| true));
                 }
             }
             req
@@ -183,23 +187,41 @@ pub fn run(ws: &[&str]) -> String {
             // in half of the cases every setter is first called with a value that is then
             // superseded: the last call must win (rotated secret, changed auth type / redirect)
             let twice = ws.iter().flat_map(|w| w.bytes()).fold(0xcbf29ce484222325u64, |h, b| (h ^ b as u64).wrapping_mul(0x100000001b3)) >> 19 & 1 == 0;
-            let mut c = $ty::new(ClientId::new(id.clone()));
-            if twice {
-                c = c.set_auth_type(match auth { AuthType::BasicAuth => AuthType::RequestBody, _ => AuthType::BasicAuth });
-            }
-            c = c.set_auth_type(auth.clone());
-            if let Some(s) = secret.clone() {
-                if twice {
-                    c = c.set_client_secret(ClientSecret::new("superseded-secret".to_string()));
+            let c = $ty::new(ClientId::new(id.clone()));
+            let c = if twice {
+                c.set_auth_type(match auth { AuthType::BasicAuth => AuthType::RequestBody, _ => AuthType::BasicAuth })
+            } else {
+                c
+            };
+            let c = c.set_auth_type(auth.clone());
+            let c = match secret.clone() {
+                Some(s) => {
+                    if twice {
+                        // a client that has already SENT requests with a secret that is then rotated
+                        // (nothing of the old credentials may be remembered)
+                        let pre = c
+                            .set_client_secret(ClientSecret::new("superseded-secret".to_string()))
+                            .set_token_uri(TokenUrl::new("https://decoy.example/token".to_string()).unwrap());
+                        let _ = pre.exchange_client_credentials().request(&decoy_client);
+                        let _ = pre.clone().exchange_client_credentials().request(&decoy_client);
+                        pre.set_token_uri_option(None).set_client_secret(ClientSecret::new(s))
+                    } else {
+                        c.set_token_uri_option(None).set_client_secret(ClientSecret::new(s))
+                    }
                 }
-                c = c.set_client_secret(ClientSecret::new(s));
-            }
-            if let Some(r) = defred.clone() {
-                if twice {
-                    c = c.set_redirect_uri(RedirectUrl::new("https://superseded.example/cb".to_string()).unwrap());
+                None => c.set_token_uri_option(None),
+            };
+            let c = match defred.clone() {
+                Some(r) => {
+                    let c = if twice {
+                        c.set_redirect_uri(RedirectUrl::new("https://superseded.example/cb".to_string()).unwrap())
+                    } else {
+                        c
+                    };
+                    c.set_redirect_uri(r)
                 }
-                c = c.set_redirect_uri(r);
-            }
+                None => c,
+            };
             // the typestate setters rebuild the client: everything configured so far must survive
             // them (they are set to decoys here; the endpoint under test is set afterwards)
             let c = c
@@ -447,7 +469,8 @@ pub fn authurl(ws: &[&str]) -> String {
                     None => return BAD.into(),
                 },
                 ("SS", 2) => match untok_list_str(parts[1]) {
-                    Some(l) => req.add_scopes(l.into_iter().map(Scope::new)),
+                    Some(l) if l.len() % 2 == 0 => req.add_scopes(l.into_iter().map(Scope::new)),
+                    Some(l) => req.add_scopes(l.into_iter().filter(|_| true).flat_map(|s| std::iter::once(Scope::new(s)))),
                     None => return BAD.into(),
                 },
                 ("E", 3) => match (untok_str(parts[1]), untok_str(parts[2])) {
